@@ -1,0 +1,19 @@
+//go:build verif
+// +build verif
+
+package fuse
+
+import "github.com/jacobsa/fuse/fuseutil"
+
+// Exports for the verification harness (build tag "verif"): the file system
+// operation interface of a mount, without mounting.
+
+// VerifFileSystem returns the file system operation interface of a read-only mount.
+func (dfs *ReadOnlyFS) VerifFileSystem() fuseutil.FileSystem {
+	return dfs.fsInternal
+}
+
+// VerifFileSystem returns the file system operation interface of a mutable mount.
+func (dfs *MutableFS) VerifFileSystem() fuseutil.FileSystem {
+	return dfs.fsInternal
+}
